@@ -310,6 +310,8 @@ func main() {
 		runC03(w, rng, *flagN)
 	case "c06":
 		runC06(w, rng, *flagN)
+	case "c04":
+		runC04(w, rng, *flagN)
 	default:
 		fmt.Fprintln(os.Stderr, "unknown mode")
 		os.Exit(2)
